@@ -149,16 +149,20 @@ unsigned y_ev;
 #define Y_G_CAS(S) y_g_##S.cas_ok, y_g_##S.cas_fail, y_g_##S.cas_old, y_g_##S.cas_new, y_g_##S.cas_loc, y_g_##S.cas_ev, y_g_##S.cas_seen, y_g_##S.obs
 /* ghost counters saturate (never wrap) */
 #define Y_SAT_INC(x) ((x) += ((x) != 0xffffffffu))
+#define Y_SATP1(x) ((x) + ((x) != 0xffffffffu))
 /* std::atomic<T> / __atomic builtins: one sequentially consistent step each (memory orders dropped).
  * y_g_<S>.arb != 0 selects arbitrary-interference mode for that value type: loads return any value, a CAS succeeds or
  * fails nondeterministically (on failure `expected` receives any value). Stores always hit memory. */
+/* rely condition on the values an interfering environment may make a location hold (default: anything).
+ * A unit that restricts it (`//@ rely S`) states the restriction as writer-side obligations elsewhere. */
+#define Y_RELY_DEFAULT(T, S) static inline _Bool y_rely_##S(T* loc, T v) { (void)loc; (void)v; return 1; }
 #define Y_DEFINE_ATOMIC(T, S) \
   T nondet_##S(void); \
   _Bool y_arb_##S; \
   typedef struct y_ghost_##S { unsigned ld_cnt; T ld_val; T* ld_loc; unsigned cas_ok; unsigned cas_fail; T cas_old; T cas_new; T* cas_loc; \
                                unsigned st_cnt; T st_val; T* st_loc; unsigned st_ev; unsigned cas_ev; T cas_seen; T obs; } y_ghost_##S; \
   y_ghost_##S y_g_##S; \
-  static inline T Y_LOAD_##S(T* loc) { T v; if (y_arb_##S) v = nondet_##S(); else v = *loc; \
+  static inline T Y_LOAD_##S(T* loc) { T v; if (y_arb_##S) { v = nondet_##S(); __CPROVER_assume(y_rely_##S(loc, v)); } else v = *loc; \
     Y_SAT_INC(y_g_##S.ld_cnt); y_g_##S.ld_val = v; y_g_##S.ld_loc = loc; y_g_##S.obs = v; return v; } \
   static inline void Y_STORE_##S(T* loc, T v) { *loc = v; Y_SAT_INC(y_g_##S.st_cnt); y_g_##S.st_val = v; y_g_##S.st_loc = loc; y_g_##S.st_ev = ++y_ev; } \
   static inline _Bool Y_CAS_##S(T* loc, T* expected, T desired) { \
@@ -166,7 +170,7 @@ unsigned y_ev;
     if (y_arb_##S) ok = nondet_bool(); else ok = (y_memcmp16(loc, expected, sizeof(T)) == 0) && nondet_bool(); \
     if (ok) { Y_SAT_INC(y_g_##S.cas_ok); y_g_##S.obs = *expected; y_g_##S.cas_old = *expected; y_g_##S.cas_new = desired; y_g_##S.cas_loc = loc; y_g_##S.cas_ev = ++y_ev; *loc = desired; return 1; } \
     Y_SAT_INC(y_g_##S.cas_fail); \
-    if (y_arb_##S) *expected = nondet_##S(); else *expected = *loc; \
+    if (y_arb_##S) { *expected = nondet_##S(); __CPROVER_assume(y_rely_##S(loc, *expected)); } else *expected = *loc; \
     y_g_##S.cas_seen = *expected; y_g_##S.obs = *expected; \
     return 0; }
 
